@@ -37,6 +37,49 @@ Definition recompose_ok (o : val) : bool :=
   | _, _, _, _, _, _ => false
   end.
 
+(** user, password, host and port are the split of the authority: at its last '@', the
+    first ':' of the userinfo, and the ':' after the host or after the closing ']' *)
+Definition spec_auth_split (a : str) : option str * option str * str * str :=      (* user, password, host, port text *)
+  let '(ui, has_at, hp) := rpartition 64 a in
+  let '(us, pw) := if has_at then (let '(u, has_colon, p) := partition 58 ui in (Some u, if has_colon then Some p else None))
+                   else (None, None) in
+  let '(h, pt) := if mem 91 hp
+                  then (let '(_, _, after_l) := partition 91 hp in
+                        let '(inner, _, after_r) := partition 93 after_l in
+                        let '(_, _, pt) := partition 58 after_r in (inner, pt))
+                  else (let '(h, _, pt) := partition 58 hp in (h, pt)) in
+  (us, pw, h, pt).
+
+Definition digits_value (t : str) : option (option N) :=
+  match t with
+  | [] => Some None
+  | _ => if forallb is_digit t then Some (Some (N_of_digits t)) else None
+  end.
+
+(** the stored authority and the reported parts agree with that split *)
+Definition authority_split_ok (o : val) : bool :=
+  match nthv i_netloc o with
+  | WStr a =>
+      let '(us, pw, h, pt) := spec_auth_split a in
+      match nthv i_explicit_port o, digits_value pt with
+      | WNat p, Some (Some v) => p =? v
+      | WNone, Some None => true
+      | WErr ValueError, _ => true                 (* encoded=True garbage: the accessor itself reports it *)
+      | _, _ => false
+      end
+      && match nthv i_raw_user o with
+         | WStr u => match us with Some x => str_eqb x u | None => false end
+         | WNone => match us with Some [] | None => true | _ => false end
+         | WErr ValueError => true
+         | _ => false end
+      && match nthv i_raw_password o with
+         | WStr x => match pw with Some y => str_eqb x y | None => false end
+         | WNone => match pw with None => true | _ => false end
+         | WErr ValueError => true
+         | _ => false end
+  | _ => false
+  end.
+
 (** the error cases of the parser, stated on the RFC authority *)
 Definition parse_error_expected (authority : str) : bool :=
   match check_brackets authority with
@@ -57,7 +100,7 @@ Definition c07_enc_pred (args : list val) : bool :=
           && vstr_is (nthv i_scheme o) sc && vstr_is (nthv i_netloc o) au
           && vstr_is (nthv i_raw_path o) (if str_eqb pa [] && negb (str_eqb au []) then [47] else pa)
           && vstr_is (nthv i_query o) qu && vstr_is (nthv i_fragment o) fr
-          && recompose_ok o
+          && recompose_ok o && authority_split_ok o
       | WErr ValueError => parse_error_expected au
       | _ => false
       end
@@ -71,7 +114,7 @@ Definition c07_auto_pred (args : list val) : bool :=
   | [WStr s; o] =>
       let '(sc, au, pa, qu, fr) := rfc_split (spec_clean s) in
       match o with
-      | WList _ => vstr_is (nthv i_scheme o) sc && recompose_ok o
+      | WList _ => vstr_is (nthv i_scheme o) sc && recompose_ok o && authority_split_ok o
       | WErr ValueError => true
       | _ => false
       end
